@@ -84,7 +84,7 @@ Section Frames.
                              | XFin p, XFin q => if pow_defined p q then option_map XFin (qpow mf2 p q) else None
                              | _, XFin q => if Qeq_bool q 0 then Some (XFin 1) else match x with XNaN => Some XNaN | _ => None end
                              | XFin p, XNaN => if Qeq_bool p 1 then Some (XFin 1) else Some XNaN
-                             | XNaN, XNaN => Some XNaN
+                             | XNaN, _ | _, XNaN => Some XNaN
                              | _, _ => None end));
       ("==", np_cmp is_Eq false); ("!=", np_cmp (fun c => negb (is_Eq c)) true);      (* _type_safe_equal / _type_safe_not_equal *)
       ("<", np_cmp is_Lt false); ("<=", np_cmp (fun c => negb (is_Gt c)) false);
@@ -176,7 +176,7 @@ Section Frames.
                        | XFin q => if math_dom name q then option_map SNum (mf name q) else None
                        | _ => None end) l.
   Definition pl_when_chain (x : sval) (kv : list sval) (dflt : sval) : option sval :=
-    match x with SNull => Some dflt | _ => map_lookup x kv dflt end.
+    if missing x then Some dflt else map_lookup x kv dflt.       (* NaN == k is false for every key *)
 
   Definition pl_table : list (string * (list sval -> option sval)) :=
     [ ("+", pl2 (fun x y => Some (xadd x y)));                              (* _reduce_plus *)
@@ -185,11 +185,11 @@ Section Frames.
                      | _ => pl2 (fun x y => Some (xsub x y)) l end);
       ("*", pl2 (fun x y => Some (xmul x y)));
       ("/", pl2 (fun x y => Some (xdiv x y))); ("%/%", pl2 (fun x y => Some (xdiv x y)));
-      ("//", pl2 (finfin (fun p q => if Qeq_bool q 0 then None else Some (XFin (xfloor_div p q)))));
-      ("%", pl2 (finfin (fun p q => if Qeq_bool q 0 then Some XNaN else Some (XFin (qpymod p q)))));
-      ("mod", pl2 (finfin (fun p q => if Qeq_bool q 0 then Some XNaN else Some (XFin (qpymod p q)))));
-      ("remainder", pl2 (finfin (fun p q => if Qeq_bool q 0 then Some XNaN else Some (XFin (qpymod p q)))));
-      ("**", pl2 (finfin (fun p q => if pow_defined p q then option_map XFin (qpow mf2 p q) else None)));
+      ("//", pl2 (nanprop2 (finfin (fun p q => if Qeq_bool q 0 then None else Some (XFin (xfloor_div p q))))));
+      ("%", pl2 (nanprop2 (finfin (fun p q => if Qeq_bool q 0 then Some XNaN else Some (XFin (qpymod p q))))));
+      ("mod", pl2 (nanprop2 (finfin (fun p q => if Qeq_bool q 0 then Some XNaN else Some (XFin (qpymod p q))))));
+      ("remainder", pl2 (nanprop2 (finfin (fun p q => if Qeq_bool q 0 then Some XNaN else Some (XFin (qpymod p q))))));
+      ("**", pl2 (nanprop2 (finfin (fun p q => if pow_defined p q then option_map XFin (qpow mf2 p q) else None))));
       ("==", pl_cmp is_Eq); ("!=", pl_cmp (fun c => negb (is_Eq c))); ("<", pl_cmp is_Lt);
       ("<=", pl_cmp (fun c => negb (is_Gt c))); (">", pl_cmp is_Gt); (">=", pl_cmp (fun c => negb (is_Lt c)));
       (* _reduce_and / _reduce_or: Kleene logic of & and | *)
